@@ -551,7 +551,7 @@ func c13OrderOnly(r *an.Run) {
 		}
 	}
 	r.Count("line/column uses in connectDots", nUses)
-	r.Min("line/column uses in connectDots", 8)
+	r.Min("line/column uses in connectDots", 3) // one lexicographic comparison (line <, line ==, column <=) at least; the three sites may share one predicate
 	// whole Positions may be printed in diagnostics but not stored as keys other than the cache
 	for _, g := range fns {
 		for _, c := range an.Calls(g) {
